@@ -1,4 +1,4 @@
-CONSTANTS Tokens = {"-", "a", "@", ":", "/", "o", "="}
+CONSTANTS Tokens = {"-", "a", "@", "/", " ", "TAB", "LF"}
   SshBox <- QuickSsh
   DockerBox <- QuickDocker
 SPECIFICATION Spec
